@@ -973,8 +973,8 @@ Proof.
   unfold DnsRequestOutboundIndex_UserDefinedMax. lia.
 Qed.
 
-Lemma domain_holds_empty k s hits : domain_holds k s "" hits = false.
-Proof. reflexivity. Qed.
+Lemma domain_holds_empty k s : domain_holds k s "" [] = false.
+Proof. destruct k; reflexivity. Qed.
 
 Lemma verdict_req ups t :
   wf_upstreams ups = true -> target_ok false ups t = true ->
@@ -1035,10 +1035,11 @@ Qed.
 
 Lemma request_select_refines cfg d bm q :
   wf_config cfg = true -> dns_new cfg = Ok d ->
+  (q_name q = ""%string -> q_regex_hits q = []) ->
   (q_name q <> ""%string -> oracle_agrees (d_req d) bm q) ->
   exists v, request_route cfg q = Some v /\ request_select d bm q = Ok v.
 Proof.
-  intros Hwf Hd Hor. destruct (wf_config_parts cfg Hwf) as [Hw [Hq Hp]].
+  intros Hwf Hd Hnohit Hor. destruct (wf_config_parts cfg Hwf) as [Hw [Hq Hp]].
   destruct (dns_new_total cfg Hwf) as [rq [rp [Hrq [Hrp Hnew]]]]. rewrite Hnew in Hd. inversion Hd; subst d. clear Hd.
   cbn [d_req] in Hor.
   set (x := {| x_q := q; x_ips := []; x_from := SAsIs |}).
@@ -1046,7 +1047,9 @@ Proof.
   destruct (refinement_core Request _ _ x bmo Hw Hq) as [rq' [Hrq' Href]]. rewrite Hrq in Hrq'. inversion Hrq'; subst rq'. clear Hrq'.
   assert (Hagree : dom_agree x bmo rq).
   { intros ds Hin. unfold bmr, dom_holds, bmo. cbn [x x_q]. destruct (String.eqb (q_name q) "") eqn:E.
-    - apply String.eqb_eq in E. rewrite E. f_equal. symmetry. induction (ds_domains ds); [reflexivity|assumption].
+    - apply String.eqb_eq in E. rewrite E, (Hnohit E). f_equal. symmetry.
+      induction (ds_domains ds) as [|s0 l IHl]; [reflexivity|]. cbn [existsb]. change (norm_name "") with ""%string.
+      rewrite domain_holds_empty. exact IHl.
     - apply Hor; [|exact Hin]. intros E'. rewrite E' in E. discriminate. }
   specialize (Href Hagree).
   destruct (verdict_req _ _ Hw (routing_ok_first_target Request _ _ x Hq)) as [oid [v [Hoid [Hv Hpost]]]].
@@ -1113,7 +1116,7 @@ Lemma handle_refines cfg d bmq bmr c q a fuel :
   = (let '(o, l, c') := answer_question max_depth cfg c q a in (res_of_outcome o, l, c')).
 Proof.
   intros Hwf Hd Hne Horq Horr Hf.
-  destruct (request_select_refines cfg d bmq q Hwf Hd (fun _ => Horq)) as [v [Hv Hs]].
+  destruct (request_select_refines cfg d bmq q Hwf Hd (fun E => match Hne E with end) (fun _ => Horq)) as [v [Hv Hs]].
   unfold handle, answer_question. rewrite Hs, Hv.
   assert (Hds : forall s, dial_send fuel d bmr q a 0 s
                 = (res_of_outcome (fst (chase cfg q a max_depth 0 s)), snd (chase cfg q a max_depth 0 s))).
@@ -1129,13 +1132,14 @@ Qed.
 
 Lemma C07_reject_ignores_cache_proof cfg d bmq bmr c q a fuel :
   wf_config cfg = true -> dns_new cfg = Ok d ->
+  (q_name q = ""%string -> q_regex_hits q = []) ->
   (q_name q <> ""%string -> oracle_agrees (d_req d) bmq q) ->
   request_route cfg q = Some QReject ->
   handle fuel d bmq bmr c q a = (Ok [], [], cache_remove_family c q) /\
   (forall scope, cache_lookup (cache_remove_family c q) q scope = None) /\
   (forall e, In e (cache_remove_family c q) <-> In e c /\ same_family q e = false).
 Proof.
-  intros Hwf Hd Hor Hrej. destruct (request_select_refines cfg d bmq q Hwf Hd Hor) as [v [Hv Hs]].
+  intros Hwf Hd Hnohit Hor Hrej. destruct (request_select_refines cfg d bmq q Hwf Hd Hnohit Hor) as [v [Hv Hs]].
   rewrite Hrej in Hv. inversion Hv; subst v. now apply C07_reject_model.
 Qed.
 
